@@ -9,9 +9,10 @@ XS = 'xmlns:xs="http://www.w3.org/2001/XMLSchema"'
 
 
 class Doc:
-    __slots__ = ('name', 'data', 'kind', 'prefix_dep')
+    __slots__ = ('name', 'data', 'kind', 'prefix_dep', 'tag')
 
-    def __init__(self, name, data, kind='valid', prefix_dep=False):
+    def __init__(self, name, data, kind='valid', prefix_dep=False, tag=None):
+        self.tag = tag              # names the listed finding a document exists to exhibit (goes into signatures)
         self.name = name
         self.data = data if isinstance(data, bytes) else data.encode('utf-8')
         self.kind = kind            # 'valid' | 'fault:<class>'
@@ -430,6 +431,7 @@ class XsiType(Family):
   <xs:unique name="u2"><xs:selector xpath=".//t:y"/><xs:field xpath="@v"/></xs:unique>
   <xs:unique name="u2z"><xs:selector xpath=".//t:z"/><xs:field xpath="@v"/></xs:unique>
  </xs:element>
+ <xs:element name="root6" type="t:Base"/>
  <xs:element name="root5">
   <xs:complexType><xs:sequence><xs:element ref="t:x" maxOccurs="unbounded"/></xs:sequence></xs:complexType>
   <xs:unique name="u5"><xs:selector xpath=".//t:y|.//t:z"/><xs:field xpath="@v"/></xs:unique>
@@ -511,6 +513,17 @@ class XsiType(Family):
             Doc('xt-r5-E-dupz', D('root5', [{'type': 't:E', 'z': [6, 6]}]), 'fault:dup-unique'),
             Doc('xt-r5-E-dupyz', D('root5', [{'type': 't:E', 'y': [4], 'z': [4]}]), 'fault:dup-unique'),
             Doc('xt-r5-D-dupy', D('root5', [{'type': 't:D', 'y': [8, 8]}]), 'fault:dup-unique'),
+        ]
+        # xsi:type on the ROOT element: the children added by the extension belong to the root's own content
+        xsi = 'xmlns:t="urn:xt" xmlns:xsi="http://www.w3.org/2001/XMLSchema-instance"'
+        out += [
+            Doc('xt-r6-plain', _decl() + f'<t:root6 {xsi} n="k"><t:a>q</t:a></t:root6>\n'),
+            Doc('xt-r6-D', _decl() + f'<t:root6 {xsi} xsi:type="t:D"><t:a>q</t:a><t:y v="1"/><t:y v="2"/></t:root6>\n',
+                tag='xsi-type-on-root'),
+            Doc('xt-r6-D-bad', _decl() + f'<t:root6 {xsi} xsi:type="t:D"><t:y v="one"/></t:root6>\n', 'fault:lexical',
+                tag='xsi-type-on-root'),
+            Doc('xt-r6-E-badz', _decl() + f'<t:root6 {xsi} xsi:type="t:E"><t:y v="1"/><t:z/></t:root6>\n', 'fault:structure',
+                tag='xsi-type-on-root'),
         ]
         G = self._grpdoc
         out += [
@@ -917,12 +930,13 @@ class Assert11(Family):
    </xs:sequence>
    <xs:attribute name="total" type="xs:int" inheritable="true"/>
    <xs:assert test="count(row) le 40"/>
+   <xs:assert test="every $r in row[@deep] satisfies count($r/*) ge 1"/>
   </xs:complexType>
  </xs:element>
  <xs:complexType name="SC"><xs:simpleContent><xs:extension base="xs:string">
    <xs:assert test="string-length($value) le 3"/></xs:extension></xs:simpleContent></xs:complexType>
  <xs:complexType name="AnyRow"><xs:sequence><xs:any processContents="lax" minOccurs="0" maxOccurs="unbounded"/></xs:sequence>
-   <xs:attribute name="kind" type="xs:string"/></xs:complexType>
+   <xs:attribute name="kind" type="xs:string"/><xs:attribute name="deep" type="xs:int"/></xs:complexType>
  <xs:complexType name="NumRow"><xs:complexContent><xs:extension base="AnyRow">
    <xs:attribute name="lo" type="xs:int" use="required"/><xs:attribute name="hi" type="xs:int" use="required"/>
    <xs:assert test="@lo le @hi"/>
@@ -950,6 +964,10 @@ class Assert11(Family):
         out.append(Doc('a11-sc-valid', self._doc([good[0], '<sc>ab</sc>', '<sc/>', '<sc>xyz</sc>'])))
         out.append(Doc('a11-sc-empty', self._doc([good[1], '<sc/>', '<sc></sc>'])))
         out.append(Doc('a11-sc-bad', self._doc([good[0], '<sc>abcdef</sc>']), 'fault:assert'))
+        # an assertion on the ROOT type that looks at grandchildren
+        out.append(Doc('a11-valid-deep', self._doc([good[0], '<row deep="1"><x/></row>', '<row deep="2" kind="other"><x/><y/></row>']),
+                       tag='root-assert-on-grandchildren'))
+        out.append(Doc('a11-bad-deep', self._doc(['<row deep="1"/>', good[2]]), 'fault:assert', tag='root-assert-on-grandchildren'))
         out.append(Doc('a11-sc-bad-then-empty', self._doc([good[0], '<sc>abcdef</sc>', '<sc/>']), 'fault:assert'))
         return out
 
@@ -1125,6 +1143,9 @@ class Shadow(Family):
  <xs:element name="code" type="xs:int"/>
  <xs:element name="box"><xs:complexType><xs:sequence>
    <xs:element name="code" type="xs:date" maxOccurs="unbounded"/></xs:sequence></xs:complexType></xs:element>
+ <xs:element name="self"><xs:complexType><xs:sequence>
+   <xs:element name="self" type="xs:int" maxOccurs="unbounded"/></xs:sequence>
+   <xs:attribute name="a" type="xs:string"/></xs:complexType></xs:element>
  <xs:element name="root">
   <xs:complexType><xs:sequence>
    <xs:element name="code" type="xs:string" maxOccurs="unbounded"/>
@@ -1141,6 +1162,9 @@ class Shadow(Family):
             Doc('sh-valid-b', _decl() + '<root><code>x</code><box><code>2020-01-01</code></box><box><code>2021-12-31</code><code>2000-02-29</code></box></root>'),
             Doc('sh-bad-box', _decl() + '<root><code>x</code><box><code>12</code></box></root>', 'fault:lexical'),
             Doc('sh-bad-extra', _decl() + '<root><code>x</code><bogus/></root>', 'fault:structure'),
+            # a local child that has the name of the root
+            Doc('sh-valid-self', _decl() + '<self a="x"><self>1</self><self>2</self></self>'),
+            Doc('sh-bad-self', _decl() + '<self a="x"><self>1</self><self>two</self></self>', 'fault:lexical'),
             # depth-1 children that decode to None between others (one result per lazy placeholder)
             Doc('sh-valid-empties', _decl() + '<root><code>A</code><code/><code>B</code><code></code><box><code>2020-01-01</code></box>'
                 '<crate><code/></crate></root>'),
@@ -1590,7 +1614,7 @@ def double_fault(doc, rng, order='model-first'):
         return None
     lines[j] = lines[j][:m.start(1)] + '!' + lines[j][m.start(1):]
     lines[i] = ' <bogus/>\n' + lines[i]
-    return Doc(doc.name + '+double-' + order, '\n'.join(lines), 'fault:double', doc.prefix_dep)
+    return Doc(doc.name + '+double-' + order, '\n'.join(lines), 'fault:double', doc.prefix_dep, tag=doc.tag)
 
 
 def with_double_faults(docs, rng, n=4):
